@@ -48,18 +48,34 @@ class Block:
         return netlist.Dump(self.hw)
 
 
+
+PLACES = ('top', 'nested', 'staged', 'staged_nested')
+
+def _place(py4hw, hw, place):
+    """where the adapter is instantiated: directly in the HWSystem; inside two levels of structural containers (the rtl_kernel pattern of
+    createHILVitis); and 'staged': the containers exist and the system HAS ALREADY BEEN SIMULATED before the adapter is added to them"""
+    if place == 'top': return hw
+    k = py4hw.Logic(hw, 'rtl_kernel')
+    parent = py4hw.Logic(k, 'wrapper') if 'nested' in place else k
+    if 'staged' in place:
+        a, b = hw.wire('pre_a', 1), hw.wire('pre_b', 1)
+        py4hw.Buf(parent, 'pre_buf', a, b)
+        hw.getSimulator().clk(2)
+    return parent
+
 class A2R(Block):
     """inputs (start, reset, done, tvalid, tdata); outputs [q, loaded, active, tready]"""
     name = 'Axi2Reg'
     def __init__(self, W, DW, opts=None):
         py4hw, AXIS, vw = _imports()
         self.W, self.DW, self.opts = W, DW, dict(opts or {})
+        self.place = self.opts.pop('_place', 'top')
         with quiet():
             hw = py4hw.HWSystem()
             st, rs, dn = hw.wire('ap_start', 1), hw.wire('ap_reset', 1), hw.wire('ap_done', 1)
             q, ld, ac = hw.wire('q', W), hw.wire('loaded', 1), hw.wire('active', 1)
             s = AXIS(hw, 'stream', dw=DW, **self.opts)
-            dut = vw.Axi2Reg(hw, 'axi2reg', st, rs, dn, s, q, ld, ac)
+            dut = vw.Axi2Reg(_place(py4hw, hw, self.place), 'axi2reg', st, rs, dn, s, q, ld, ac)
         self.stream = s
         self.inw = [st, rs, dn, s.tvalid, s.tdata]
         self.outw = [q, ld, ac, s.tready]
@@ -78,13 +94,14 @@ class R2A(Block):
         py4hw, AXIS, vw = _imports()
         self.W, self.DW, self.KW = W, DW, DW // 8
         self.opts = dict(opts or {}); self.opts.update(has_tlast=True, has_tkeep=True)      # Reg2Axi drives tlast and tkeep
+        self.place = self.opts.pop('_place', 'top')
         with quiet():
             hw = py4hw.HWSystem()
             st, rs, dn = hw.wire('ap_start', 1), hw.wire('ap_reset', 1), hw.wire('ap_done', 1)
             lo, ri = hw.wire('load_outs', 1), hw.wire('reg_in', W)
             se, ac = hw.wire('sent', 1), hw.wire('active', 1)
             s = AXIS(hw, 'stream', dw=DW, **self.opts)
-            dut = vw.Reg2Axi(hw, 'reg2axi', st, rs, dn, lo, ri, s, se, ac)
+            dut = vw.Reg2Axi(_place(py4hw, hw, self.place), 'reg2axi', st, rs, dn, lo, ri, s, se, ac)
         self.stream = s
         self.inw = [st, rs, dn, lo, s.tready, ri]
         self.outw = [s.tvalid, s.tdata, s.tlast, s.tkeep, se, ac]
